@@ -159,7 +159,7 @@ fn conn_of(e: &h3::error::StreamError) -> Option<String> {
     }
 }
 
-fn one_run(ctx: &RunCtx) -> RunOut {
+fn one_run_client(ctx: &RunCtx) -> RunOut {
     HOOK.call_once(|| h3::verif::set_preempt_hook(hook));
     let ntasks = 1 + draw_usize(3);
     let mut kinds: Vec<Kind> = (0..ntasks).map(|_| *pick(&[Kind::BadFrame, Kind::NoAuthority, Kind::Truncated, Kind::BadQpack])).collect();
@@ -355,7 +355,14 @@ fn one_run(ctx: &RunCtx) -> RunOut {
     } else {
         std::mem::forget(send_request);
     }
-    // ---- the scheduler
+    let last_sender_dropped = kinds == vec![Kind::DropSender];
+    schedule_and_judge(ctx, &s, &rec, &net, CLIENT, joins, &format!("{kinds:?}"), driver_side, last_sender_dropped)
+}
+
+/// The scheduler (who gets the baton next, or which transport event fires, is a drawn choice), then the
+/// judgement at exact quiescence, shared by the client-role and the server-role scenario.
+#[allow(clippy::too_many_arguments)]
+fn schedule_and_judge(ctx: &RunCtx, s: &Arc<Sched>, rec: &Arc<Mutex<Rec>>, net: &net::Shared, h3side: u8, joins: Vec<std::thread::JoinHandle<()>>, kinds: &str, driver_side: u32, last_sender_dropped: bool) -> RunOut {
     let mut world = NetWorld(net.clone());
     let mut steps = 0u32;
     let mut harness_err = None;
@@ -399,7 +406,7 @@ fn one_run(ctx: &RunCtx) -> RunOut {
         obs::ev(why, *t as u64 * 4, 0);
     }
     let r = rec.lock().unwrap().clone();
-    let closes = net.lock().unwrap().closes_by(CLIENT);
+    let closes = net.lock().unwrap().closes_by(h3side);
     {
         let mut g = s.m.lock().unwrap();
         g.abort = true;
@@ -412,24 +419,24 @@ fn one_run(ctx: &RunCtx) -> RunOut {
         return RunOut { harness_error: Some(h), ..Default::default() };
     }
     let trace_s: Vec<String> = trace.iter().map(|(t, w)| format!("T{t}:{w}")).collect();
-    obs::note(|| format!("kinds {:?} driver_side {driver_side}; states {:?}; record {:?}; closes {:?}", kinds, states, r, closes));
+    obs::note(|| format!("role {} kinds {} driver_side {driver_side}; states {:?}; record {:?}; closes {:?}", if h3side == CLIENT { "client" } else { "server" }, kinds, states, r, closes));
     if let Some(p) = &r.panic {
         if p.contains("/verif/sim/src") {
             return RunOut { harness_error: Some(format!("harness panic on a worker thread: {p}")), ..Default::default() };
         }
-        return RunOut::fail(Violation::new("C05.panic", format!("h3 panicked: {p}; stream tasks {:?}; trace {:?}", kinds, trace_s)).fact("at", p.rsplit('/').next().unwrap_or("")));
+        return RunOut::fail(Violation::new("C05.panic", format!("h3 panicked: {p}; stream tasks {}; trace {:?}", kinds, trace_s)).fact("at", p.rsplit('/').next().unwrap_or("")));
     }
-    let mk = |rule: &str, d: String| RunOut::fail(Violation::new(rule, format!("{d}; stream tasks {:?}, driver-side cause {driver_side}; driver {:?}; handles {:?}; closes {:?}; hook/park trace {:?}", kinds, r.driver, r.handles, closes.iter().map(|c| code_name(*c)).collect::<Vec<_>>(), trace_s)));
+    let mk = |rule: &str, d: String| RunOut::fail(Violation::new(rule, format!("{d}; stream tasks {}, driver-side cause {driver_side}; driver {:?}; handles {:?}; closes {:?}; hook/park trace {:?}", kinds, r.driver, r.handles, closes.iter().map(|c| code_name(*c)).collect::<Vec<_>>(), trace_s)).fact("role", if h3side == CLIENT { "client" } else { "server" }));
     // all connection errors reported anywhere
     let mut all: Vec<&String> = r.driver.iter().collect();
     all.extend(r.handles.iter().map(|h| &h.2).filter(|o| !o.starts_with("ok") && !o.starts_with("other")));
     let error_raised = !all.is_empty();
     // (3) no lost wake-up: at quiescence a set error has reached the driver
-    let any_stream_done_with_error = r.handles.iter().any(|h| !h.2.starts_with("ok") && !h.2.starts_with("other")) || (kinds == vec![Kind::DropSender] && states[1] == St::Done);
+    let any_stream_done_with_error = r.handles.iter().any(|h| !h.2.starts_with("ok") && !h.2.starts_with("other")) || (last_sender_dropped && states[1] == St::Done);
     if any_stream_done_with_error && states[0] != St::Done {
         return mk("C05.driver_parked_with_error_set", format!("a connection error was raised from a request task but the driver is {:?} at quiescence", states[0]));
     }
-    if !error_raised && kinds != vec![Kind::DropSender] {
+    if !error_raised && !last_sender_dropped {
         return mk("C05.no_error_observed", "the scenario raised no connection error (harness expectation)".into());
     }
     // (1) exactly one outcome
@@ -486,9 +493,256 @@ fn one_run(ctx: &RunCtx) -> RunOut {
     }
     let mut out = RunOut::ok(hooks >= 2);
     if ctx.want_sample {
-        out.sample = Some(json!({"stream_tasks": format!("{kinds:?}"), "driver_side_cause": driver_side, "outcome": r.driver.first(), "handles": r.handles, "closes": closes.iter().map(|c| code_name(*c)).collect::<Vec<_>>(), "trace": trace_s}));
+        out.sample = Some(json!({"role": if h3side == CLIENT { "client" } else { "server" }, "stream_tasks": kinds, "driver_side_cause": driver_side, "outcome": r.driver.first(), "handles": r.handles, "closes": closes.iter().map(|c| code_name(*c)).collect::<Vec<_>>(), "trace": trace_s}));
     }
     out
+}
+
+
+/// A one-shot hand-over of a value from the driver thread to a request thread, waking the receiver through
+/// its task waker (so that the wait is an ordinary park of the controlled-thread engine).
+struct Slot<T> {
+    v: Mutex<(Option<T>, Option<Waker>, bool)>,
+}
+impl<T> Slot<T> {
+    fn new() -> Arc<Self> {
+        Arc::new(Slot { v: Mutex::new((None, None, false)) })
+    }
+    fn put(&self, t: T) {
+        let w = {
+            let mut g = self.v.lock().unwrap();
+            g.0 = Some(t);
+            g.1.take()
+        };
+        if let Some(w) = w {
+            w.wake();
+        }
+    }
+    /// nothing will ever be put: the receiver gives up
+    fn close(&self) {
+        let w = {
+            let mut g = self.v.lock().unwrap();
+            g.2 = true;
+            g.1.take()
+        };
+        if let Some(w) = w {
+            w.wake();
+        }
+    }
+    fn poll_take(&self, cx: &mut Context<'_>) -> Poll<Option<T>> {
+        let mut g = self.v.lock().unwrap();
+        if let Some(t) = g.0.take() {
+            return Poll::Ready(Some(t));
+        }
+        if g.2 {
+            return Poll::Ready(None);
+        }
+        g.1 = Some(cx.waker().clone());
+        Poll::Pending
+    }
+}
+
+/// Server role: the driver thread runs the accept() loop (its first ever poll included) and hands each
+/// accepted request to its own thread, where a real API call raises a distinct connection error.
+fn one_run_server(ctx: &RunCtx) -> RunOut {
+    HOOK.call_once(|| h3::verif::set_preempt_hook(hook));
+    let ntasks = 1 + draw_usize(3);
+    let kinds: Vec<Kind> = (0..ntasks).map(|_| *pick(&[Kind::BadFrame, Kind::Truncated, Kind::BadQpack])).collect();
+    let driver_side = draw(4); // 0 nothing, 1 second control stream, 2 peer closes with an application code, 3 nothing
+    let peer_close_code = *pick(&[0x101u64, 0x100, 0x10c]);
+    let net = Net::new(NetCfg::default());
+    let mut sids = vec![];
+    {
+        let mut n = net.lock().unwrap();
+        peer_control(&mut n, CLIENT, &[]);
+        for kind in &kinds {
+            let sid = n.raw_open_next(CLIENT, false);
+            let req = headers_frame(&request_fields("POST", "/c05"));
+            let bytes: Vec<u8> = match kind {
+                Kind::BadFrame => [req, frames::frame(frames::CANCEL_PUSH, &[0x00])].concat(),
+                Kind::Truncated => [req, vec![0x00, 0x0a, b'a']].concat(),
+                _ => frames::frame(frames::HEADERS, &[0x05, 0x00, 0x80]),
+            };
+            n.raw_write(sid, CLIENT, &bytes);
+            n.raw_fin(sid, CLIENT);
+            sids.push(sid);
+        }
+    }
+    // build the server on this thread (no hooks fire: ME is unset here)
+    let conn: SimConn = net::conn(&net, SERVER);
+    struct Noop;
+    impl Wake for Noop {
+        fn wake(self: Arc<Self>) {}
+    }
+    let mut server = {
+        let w = Waker::from(Arc::new(Noop));
+        let mut cx = Context::from_waker(&w);
+        let mut b = h3::server::builder();
+        b.send_grease(false);
+        let mut f = pin!(b.build::<_, SimBuf>(conn));
+        match f.as_mut().poll(&mut cx) {
+            Poll::Ready(Ok(x)) => x,
+            Poll::Ready(Err(e)) => return RunOut { harness_error: Some(format!("server build failed: {e}")), ..Default::default() },
+            Poll::Pending => return RunOut { harness_error: Some("server build pending with an always-ready transport".into()), ..Default::default() },
+        }
+    };
+    type Resolver = h3::server::RequestResolver<SimConn, SimBuf>;
+    let slots: Vec<Arc<Slot<Resolver>>> = (0..ntasks).map(|_| Slot::new()).collect();
+    let mut handed = 0usize;
+    // In some runs everything the peer sent has arrived and the driver has already accepted the requests
+    // (polled from this thread under a throw-away waker) before the race begins: its next poll finds nothing
+    // to process and the waker slot holds a stale waker.
+    let pre_drive = draw(2) == 1;
+    if pre_drive {
+        let w = Waker::from(Arc::new(Noop));
+        let mut cx = Context::from_waker(&w);
+        let mut world = NetWorld(net.clone());
+        for _ in 0..400 {
+            if world.count_enabled() == 0 {
+                break;
+            }
+            world.fire(0);
+        }
+        for _ in 0..ntasks + 1 {
+            let r = {
+                let mut f = pin!(server.accept());
+                f.as_mut().poll(&mut cx)
+            };
+            match r {
+                Poll::Ready(Ok(Some(res))) => {
+                    if handed < ntasks {
+                        slots[handed].put(res);
+                        handed += 1;
+                    }
+                }
+                Poll::Ready(other) => return RunOut { harness_error: Some(format!("accept ended during pre-drive: {:?}", other.map(|o| o.is_some()).map_err(|e| e.to_string()))), ..Default::default() },
+                Poll::Pending => break,
+            }
+        }
+        obs::count("probe.driver_pre_driven");
+    }
+    {
+        let mut n = net.lock().unwrap();
+        match driver_side {
+            1 => {
+                let id = n.raw_open_next(CLIENT, true);
+                n.raw_write(id, CLIENT, &varint::encode(frames::ST_CONTROL));
+            }
+            2 => n.raw_close(CLIENT, peer_close_code),
+            _ => {}
+        }
+    }
+    let nthreads = 1 + ntasks;
+    let s = Arc::new(Sched { m: Mutex::new(Inner { current: None, st: vec![St::Runnable; nthreads], trace: vec![], abort: false }), cv: Condvar::new() });
+    let rec: Arc<Mutex<Rec>> = Default::default();
+    let mut joins = vec![];
+    // T0: the driver
+    {
+        let s0 = s.clone();
+        let rec = rec.clone();
+        let slots = slots.clone();
+        joins.push(std::thread::spawn(move || {
+            let (sg, rg) = (s0.clone(), rec.clone());
+            guarded(0, &sg, &rg, move || {
+                ME.with(|m| *m.borrow_mut() = Some((0, s0.clone())));
+                if s0.wait_turn(0) {
+                    let mut calls_after_error = 0;
+                    loop {
+                        let r = block_on(0, &s0, server.accept());
+                        match r {
+                            None => break, // torn down
+                            Some(Ok(Some(res))) => {
+                                if handed < slots.len() {
+                                    slots[handed].put(res);
+                                    handed += 1;
+                                } else {
+                                    std::mem::forget(res);
+                                }
+                            }
+                            Some(Ok(None)) => {
+                                rec.lock().unwrap().driver.push("accept returned None".into());
+                                break;
+                            }
+                            Some(Err(e)) => {
+                                rec.lock().unwrap().driver.push(cout(&e).to_string());
+                                for sl in slots.iter() {
+                                    sl.close();
+                                }
+                                // later driver calls keep returning it
+                                calls_after_error += 1;
+                                if calls_after_error == 3 {
+                                    break;
+                                }
+                            }
+                        }
+                    }
+                    rec.lock().unwrap().cell = server.get_conn_error().map(|e| format!("{e}"));
+                    s0.yield_with(0, St::Done, "done");
+                }
+                ME.with(|m| *m.borrow_mut() = None);
+                std::mem::forget(server); // no teardown effects on the record
+            });
+        }));
+    }
+    for (t, kind) in kinds.iter().enumerate() {
+        let id = t + 1;
+        let st = s.clone();
+        let rec = rec.clone();
+        let kind = *kind;
+        let slot = slots[t].clone();
+        joins.push(std::thread::spawn(move || {
+            let (sg, rg) = (st.clone(), rec.clone());
+            guarded(id, &sg, &rg, move || {
+                ME.with(|m| *m.borrow_mut() = Some((id, st.clone())));
+                if st.wait_turn(id) {
+                    let push = |call: &str, out: String| rec.lock().unwrap().handles.push((id, call.to_string(), out));
+                    if let Some(Some(resolver)) = block_on(id, &st, std::future::poll_fn(|cx| slot.poll_take(cx))) {
+                        match block_on(id, &st, resolver.resolve_request()) {
+                            None => {}
+                            Some(Err(e)) => push("resolve_request", conn_of(&e).unwrap_or_else(|| format!("other: {e}"))),
+                            Some(Ok((_req, mut stream))) => {
+                                if kind == Kind::BadQpack {
+                                    push("resolve_request", "ok?!".into());
+                                }
+                                loop {
+                                    match block_on(id, &st, stream.recv_data()) {
+                                        None => break,
+                                        Some(Ok(Some(_))) => continue,
+                                        Some(Ok(None)) => {
+                                            push("recv_data", "ok?!".into());
+                                            break;
+                                        }
+                                        Some(Err(e)) => {
+                                            push("recv_data", conn_of(&e).unwrap_or_else(|| format!("other: {e}")));
+                                            break;
+                                        }
+                                    }
+                                }
+                                // later calls on the same handle
+                                if let Some(r) = block_on(id, &st, stream.send_response(http::Response::builder().status(200).body(()).unwrap())) {
+                                    match r {
+                                        Err(e) => push("send_response(later)", conn_of(&e).unwrap_or_else(|| format!("other: {e}"))),
+                                        Ok(()) => push("send_response(later)", "ok".into()),
+                                    }
+                                }
+                                if let Some(r) = block_on(id, &st, stream.recv_data()) {
+                                    match r {
+                                        Err(e) => push("recv_data(later)", conn_of(&e).unwrap_or_else(|| format!("other: {e}"))),
+                                        Ok(_) => push("recv_data(later)", "ok".into()),
+                                    }
+                                }
+                                std::mem::forget(stream);
+                            }
+                        }
+                    }
+                    st.yield_with(id, St::Done, "done");
+                }
+                ME.with(|m| *m.borrow_mut() = None);
+            });
+        }));
+    }
+    let _ = sids;
+    schedule_and_judge(ctx, &s, &rec, &net, SERVER, joins, &format!("{kinds:?}"), driver_side, false)
 }
 
 impl Check for C05 {
@@ -498,15 +752,19 @@ impl Check for C05 {
     fn meta(&self) -> Meta {
         Meta {
             level: "exploration",
-            rule: "E2: one driver thread (client poll_close, first ever poll included, a fresh waker object at every poll) and 1-3 request-task threads, each raising a distinct connection error through a real API call (request without authority -> H3_INTERNAL_ERROR from send_request; CANCEL_PUSH in a response -> H3_FRAME_UNEXPECTED; frame truncated by FIN -> H3_FRAME_ERROR; dynamic-table reference -> QPACK_DECOMPRESSION_FAILED; last SendRequest dropped -> H3_NO_ERROR), optionally plus an error the driver detects itself (second control stream) or a transport-reported application close; the baton is handed over at the four guarded pre-emption points in h3 (error stored / before wake, driver checked / before register, registered, driver stored / before close), at every park and between transport events, the next holder drawn; later calls on every handle and on the driver; judged at exact quiescence (every thread parked or done, no transport event enabled); non-trivial = at least 2 pre-emption points visited; distinct = distinct sequences of (thread, pre-emption point / park)",
-            real: &["h3 SharedState (OnceLock error cell, AtomicWaker), ConnectionState::set_conn_error_and_wake, ConnectionInner::{handle_connection_error, poll_connection_error, close_if_needed}", "client Connection::poll_close, SendRequest, RequestStream", "futures_util::task::AtomicWaker, std OnceLock, real OS threads (one running at a time)"],
+            rule: "E2, two runs in three in the client role and one in three in the server role: one driver thread (client poll_close / server accept() loop handing each accepted request to its own thread; first ever poll included, a fresh waker object at every poll, optionally pre-driven under a waker that is stale afterwards) and 1-3 request-task threads, each raising a distinct connection error through a real API call (client: request without authority -> H3_INTERNAL_ERROR from send_request; CANCEL_PUSH in a response -> H3_FRAME_UNEXPECTED; frame truncated by FIN -> H3_FRAME_ERROR; dynamic-table reference -> QPACK_DECOMPRESSION_FAILED; last SendRequest dropped -> H3_NO_ERROR; server: CANCEL_PUSH in a request body -> H3_FRAME_UNEXPECTED from recv_data; DATA frame truncated by FIN -> H3_FRAME_ERROR; dynamic-table reference -> QPACK_DECOMPRESSION_FAILED from resolve_request), optionally plus an error the driver detects itself (second control stream) or a transport-reported application close; the baton is handed over at the four guarded pre-emption points in h3 (error stored / before wake, driver checked / before register, registered, driver stored / before close), at every park and between transport events, the next holder drawn; later calls on every handle and on the driver; judged at exact quiescence (every thread parked or done, no transport event enabled); non-trivial = at least 2 pre-emption points visited; distinct = distinct sequences of (thread, pre-emption point / park)",
+            real: &["h3 SharedState (OnceLock error cell, AtomicWaker), ConnectionState::set_conn_error_and_wake, ConnectionInner::{handle_connection_error, poll_connection_error, close_if_needed}", "client Connection::poll_close, SendRequest, RequestStream", "server Connection::accept, RequestResolver::resolve_request, server RequestStream", "futures_util::task::AtomicWaker, std OnceLock, real OS threads (one running at a time)"],
             stub: &["thread scheduler (baton; choice-driven)", "QUIC transport (SimQuic, plain configuration)", "peer (script)"],
-            assumptions: &["only one thread runs at a time, so shared-state operations are sequentially consistent - the granularity the property states; memory-model races are out of reach", "server-side drivers (accept) share the judged code paths (poll_control / poll_connection_error / handle_connection_error)"],
+            assumptions: &["only one thread runs at a time, so shared-state operations are sequentially consistent - the granularity the property states; memory-model races are out of reach"],
             quick_runs: 30_000,
             thorough_runs: 1_200_000,
         }
     }
     fn run(&self, ctx: &RunCtx) -> RunOut {
-        one_run(ctx)
+        if ctx.run % 3 == 2 {
+            one_run_server(ctx)
+        } else {
+            one_run_client(ctx)
+        }
     }
 }
